@@ -16,12 +16,14 @@ for f in sorted(glob.glob(os.path.join(root, "checks", "C*.manifest.json"))):
         "quick_cmd": "./check %s --tier quick" % pid,
         "thorough_cmd": "./check %s --tier thorough" % pid,
         "evidence_file": "/verif/evidence/%s.json" % pid,
-        "replay_cmd_template": "./check %s --replay {path}" % pid,
         "engine": "tlc+vh",
         "level_claimed": frag["level_claimed"],
         "level_note": frag["level_note"],
         "technique": frag["technique"],
     }
+    # only drivers that implement --replay advertise it
+    if "c.replay" in open(os.path.join(root, "checks", pid + ".py")).read():
+        entry["replay_cmd_template"] = "./check %s --replay {path}" % pid
     checks.append(entry)
 hooks = json.load(open(os.path.join(root, "checks", "hooks.json")))
 man = {
